@@ -139,6 +139,7 @@ def build(C, E, w, version_rules):
                              'auth_events_outcomes': auth or (lambda: [(TRUE, Obj('SeqIter', ((), 0)))]), 'redacts': redacts})
     tet = lambda v: Adt(TET, v, [])
     create_event = mk_event(w.create_sender, tet('RoomCreate'), create_content, create_id, lambda: [(TRUE, some(cs(b'')))])
+    w.create_event_obj, w.create_id_obj = create_event, create_id
 
     # --- member events in state, by role
     def member_content(field, label):
